@@ -134,6 +134,60 @@ class Walker:
         raise GiveUp(f"value {v!r}")
 
 
+def _ranges(pred):
+    out, start, prev = [], None, None
+    for cp in range(0x110000):
+        if pred(chr(cp)):
+            if start is None:
+                start = cp
+            prev = cp
+        elif start is not None:
+            out.append((start, prev))
+            start = None
+    if start is not None:
+        out.append((start, prev))
+    return out
+
+
+_REALISM = {}
+
+
+def _char_class(name):
+    if name not in _REALISM:
+        pred = {"isdigit": str.isdigit, "isdecimal": str.isdecimal, "isalpha": str.isalpha, "isupper": str.isupper}[name]
+        rs = [(a, b) for a, b in _ranges(pred) if b < 0x30000]     # z3's character range
+        _REALISM[name] = z3.Union([z3.Range(chr(a), chr(b)) if a != b else z3.Re(chr(a)) for a, b in rs])
+    return _REALISM[name]
+
+
+def realism_constraints(terms):
+    """Counter-models interpret the uninterpreted character predicates freely; for *concretisation* (never
+    for proofs) they are tied to CPython's meaning so that the reconstructed input behaves natively the
+    way the model says (e.g. isdigit(s) and int(s) failing gives a superscript digit)."""
+    out, seen = [], set()
+    todo = list(terms)
+    while todo:
+        t = todo.pop()
+        if t.get_id() in seen:
+            continue
+        seen.add(t.get_id())
+        if z3.is_quantifier(t):
+            continue
+        if z3.is_app(t) and t.num_args() == 1 and t.decl().name() in ("py_isdigit", "py_isascii", "py_int_ok", "py_isalpha", "py_isupper"):
+            a = t.arg(0)
+            nm = t.decl().name()
+            if nm == "py_isdigit":
+                out.append(t == z3.InRe(a, z3.Plus(_char_class("isdigit"))))
+            elif nm == "py_isascii":
+                out.append(t == z3.InRe(a, z3.Star(z3.Range(chr(0), chr(127)))))
+            elif nm == "py_int_ok":
+                out.append(z3.Implies(z3.InRe(a, z3.Plus(_char_class("isdigit"))), t == z3.InRe(a, z3.Plus(_char_class("isdecimal")))))
+            elif nm == "py_isalpha":
+                out.append(t == z3.InRe(a, z3.Plus(_char_class("isalpha"))))
+        todo.extend(t.children())
+    return out
+
+
 def concretize(eng, ob, fi, contract, timeout_ms=8000):
     """-> {"order": [...], "params": {...}} or (None, reason)"""
     entry_env, entry_heap = ob.entry
@@ -145,6 +199,11 @@ def concretize(eng, ob, fi, contract, timeout_ms=8000):
         s.add(t)
     if s.check() != z3.sat:
         return None, "in-process re-solve did not return sat"
+    s.push()
+    for t in realism_constraints(terms + unf):
+        s.add(t)
+    if s.check() != z3.sat:
+        s.pop()     # keep the abstract model
     order = fi.params
 
     def attempt(model):
